@@ -542,6 +542,18 @@ def run_immut(case):
             ("unicode", dns.name.from_unicode("königsgäßchen.example.")))]
         for d, o in objs:
             walk(o, "Name", probs, set(), n)
+        # labels handed in as caller-owned mutable buffers: refused, or copied
+        for lab in (bytearray(b"abc"), memoryview(b"abc")):
+            try:
+                nm_ = dns.name.Name([lab, b""])
+            except Exception:
+                n[0] += 1
+                continue
+            n[0] += 1
+            if not all(type(x) is bytes for x in nm_.labels):
+                probs.append(("immut/name-holds-mutable-label/%s" % type(lab).__name__,
+                              "Name([%s(...), b'']) keeps the caller's buffer as a label (types %s)" % (
+                                  type(lab).__name__, [type(x).__name__ for x in nm_.labels])))
         return probs, n[0], len(objs)
     spec = SPEC_BY_KEY[case["spec"]]
     objs = instances(spec)
